@@ -45,6 +45,7 @@ type advMon struct {
 	captured  [2][]*wirePacket // emitted by X, only DATA / SACK / HEARTBEAT / FORWARD-TSN chunks
 	nEmitted  [2]int
 	wantAbort [2]int64 // X must answer with ABORT: sequence number of the injection
+	otherCloseCause bool // something else that may legitimately close an endpoint was injected (ABORT, SHUTDOWN, unpredicted packets)
 	wantWhy   [2]string
 }
 
@@ -119,7 +120,7 @@ func (m *advMon) onStep() {
 			w.violate("C03", "reassembly-counter-corrupt", "%s: %s", ep.name, msg)
 			return
 		}
-		if m.wantAbort[side] != 0 && m.abortSeq[side] == 0 && accState(a) == closed {
+		if m.wantAbort[side] != 0 && m.abortSeq[side] == 0 && accState(a) == closed && m.abortSeq[1-side] == 0 && !m.otherCloseCause {
 			// closed without telling the peer is not what the property promises, but closing is allowed only with the ABORT
 			w.violate("C03", "wrong-kind-not-aborted", "%s closed after %s without emitting an ABORT", ep.name, m.wantWhy[side])
 			return
@@ -600,6 +601,10 @@ func (ad *adversary) inject(T int, p advPacket) {
 	w.probe("inject." + p.class)
 	if !p.inert {
 		ad.effective = true
+	}
+	switch p.class {
+	case "abort", "shutdown-family", "chunk-soup", "mutated-real-packet", "handshake-arbitrary":
+		ad.m.otherCloseCause = true
 	}
 	if p.abortOK && ad.m.wantAbort[T] == 0 {
 		ad.m.wantAbort[T] = w.evSeq + 1
